@@ -304,6 +304,7 @@ class SgzConverter(SgzReader):
         # Bytes 3225-3226 (1-based) of the SEG-Y file header: a big-endian 16-bit integer
         data_sample_format_code = int.from_bytes(
             self.headerbytes[DISK_BLOCK_BYTES+3224: DISK_BLOCK_BYTES+3226], 'big')
+        source_headerbytes = self.headerbytes
         if data_sample_format_code in [1, 5]:
             spec.format = data_sample_format_code
         else:
@@ -312,7 +313,11 @@ class SgzConverter(SgzReader):
             self.headerbytes = bytes(new_headerbytes)
             spec.format = 1
 
-        self.write_segy(spec, out_file)
+        try:
+            self.write_segy(spec, out_file)
+        finally:
+            # The substituted format code belongs to the exported file only, not to this object's view of the SGZ file
+            self.headerbytes = source_headerbytes
 
     def write_segy(self, spec, out_file):
 
